@@ -381,6 +381,10 @@ func (interp *Interpreter) cfg(root *node, sc *scope, importPath, pkgName string
 				if n.anc.kind == keyValueExpr && n == n.anc.child[0] {
 					n.typ = n.anc.typ.key
 				} else if atyp := n.anc.typ; atyp != nil {
+					if atyp.cat == ptrT {
+						// The ancestor is itself a composite literal with an elided &type.
+						atyp = atyp.val
+					}
 					if atyp.cat == valueT && hasElem(atyp.rtype) {
 						n.typ = valueTOf(atyp.rtype.Elem())
 					} else {
